@@ -264,6 +264,25 @@ func runC17(c *Ctx) {
 		ot := gal.Tuple(ex, optD(gm, "heartbeatInterval"), optD(gm, "heartbeatToleranceDuration"), optD(gm, "monitorInterval"), optD(gm, "timeout"))
 		rm := cfg2.GetCouchbaseMembership()
 		bc = append(bc, gal.Tuple(ot, gal.App("CbMember", gal.Z(int64(rm.ExpirySeconds)), zdur(rm.HeartbeatInterval), zdur(rm.HeartbeatToleranceDuration), zdur(rm.MonitorInterval), zdur(rm.Timeout))))
+		// monitor (C17 "override key-wise"): a key sets its own field, a field without a key keeps its default
+		{
+			def := (&config.Dcp{}).GetCouchbaseMembership()
+			for _, f := range []struct {
+				key      string
+				got, def time.Duration
+			}{{"heartbeatInterval", rm.HeartbeatInterval, def.HeartbeatInterval}, {"heartbeatToleranceDuration", rm.HeartbeatToleranceDuration, def.HeartbeatToleranceDuration},
+				{"monitorInterval", rm.MonitorInterval, def.MonitorInterval}, {"timeout", rm.Timeout, def.Timeout}} {
+				want := f.def
+				if v, ok := gm[f.key]; ok {
+					if pd, err := time.ParseDuration(v); err == nil {
+						want = pd
+					}
+				}
+				if f.got != want {
+					c.Violate("override-not-keywise", fmt.Sprintf("couchbase membership, overrides %v: %s is %v, expected %v", gm, f.key, f.got, want), map[string]interface{}{"overrides": gm, "result": rm})
+				}
+			}
+		}
 		br = append(br, J(map[string]interface{}{"kind": "couchbase-membership", "overrides": gm, "result": rm}))
 		c.Count("cb-membership")
 		// leader elector
@@ -273,6 +292,23 @@ func runC17(c *Ctx) {
 		kt := gal.Tuple(optD(lm, "leaseDuration"), optD(lm, "renewDeadline"), optD(lm, "retryPeriod"))
 		rk := cfg3.GetKubernetesLeaderElector()
 		kc = append(kc, gal.Tuple(kt, gal.App("K8s", zdur(rk.LeaseDuration), zdur(rk.RenewDeadline), zdur(rk.RetryPeriod))))
+		{
+			def := (&config.Dcp{LeaderElection: config.LeaderElection{Config: map[string]string{"leaseLockName": "l", "leaseLockNamespace": "n"}}}).GetKubernetesLeaderElector()
+			for _, f := range []struct {
+				key      string
+				got, def time.Duration
+			}{{"leaseDuration", rk.LeaseDuration, def.LeaseDuration}, {"renewDeadline", rk.RenewDeadline, def.RenewDeadline}, {"retryPeriod", rk.RetryPeriod, def.RetryPeriod}} {
+				want := f.def
+				if v, ok := lm[f.key]; ok {
+					if pd, err := time.ParseDuration(v); err == nil {
+						want = pd
+					}
+				}
+				if f.got != want {
+					c.Violate("override-not-keywise", fmt.Sprintf("kubernetes leader elector, overrides %v: %s is %v, expected %v", lm, f.key, f.got, want), map[string]interface{}{"overrides": lm, "result": rk})
+				}
+			}
+		}
 		kr = append(kr, J(map[string]interface{}{"kind": "k8s-elector", "overrides": lm, "result": rk}))
 		c.Count("k8s-elector")
 	}
